@@ -60,6 +60,9 @@ def cls_to_re(items):
     return r
 
 
+_ANCHORS = {}
+
+
 class Conv:
     def __init__(self, pattern: re.Pattern, group_filter=None, optional=None):
         """group_filter: name -> z3 regex the group's text must additionally belong to
@@ -74,7 +77,17 @@ class Conv:
         if flags & (re.IGNORECASE | re.MULTILINE):
             raise Unsupported("flags")
         self.dotall = bool(flags & re.DOTALL)
-        self.re = self.seq(sp.parse(pattern.pattern, flags))
+        tree = list(sp.parse(pattern.pattern, flags))
+        # anchors are supported at the two ends of the pattern only
+        self.at_begin = self.at_end = None
+        if tree and tree[0][0] is sc.AT and tree[0][1] in (sc.AT_BEGINNING, sc.AT_BEGINNING_STRING):
+            self.at_begin = True
+            tree = tree[1:]
+        if tree and tree[-1][0] is sc.AT and tree[-1][1] in (sc.AT_END, sc.AT_END_STRING):
+            self.at_end = "$" if tree[-1][1] is sc.AT_END else "Z"
+            tree = tree[:-1]
+        self.re = self.seq(tree)
+        _ANCHORS[self.re.get_id()] = (self.at_begin, self.at_end)
 
     def seq(self, tree):
         out = []
@@ -151,12 +164,16 @@ def how_matched(func, pattern_name):
 
 
 def accept_language(r, how):
+    """language of strings x for which pattern.<how>(x) is not None; honours a leading ^ / trailing $ or \\Z of the pattern
+    (python's `$` also matches just before one trailing newline)"""
     star = z3.Full(RS)
+    at_begin, at_end = _ANCHORS.get(r.get_id(), (None, None))
     if how == "fullmatch":
         return r
-    if how == "match":
-        return z3.Concat(r, star)
-    return z3.Concat(star, r, star)
+    tail = star if at_end is None else (z3.Union(z3.Re(""), z3.Re("\n")) if at_end == "$" else z3.Re(""))
+    if how == "match" or at_begin:
+        return z3.Concat(r, tail)
+    return z3.Concat(star, r, tail)
 
 
 def lookup_table(translation):
